@@ -20,6 +20,7 @@ def instants_of(tr: list, lo: float = 0.0) -> list:
     for i, t in enumerate(ts):
         pts.add(round(max(0.0, t - EPS_T), 9))
         pts.add(round(t + EPS_T, 9))
+        pts.add(round(t, 9))  # the exact coincidence (fault timer and program timer due at the same instant: either may fire first)
         if i + 1 < len(ts) and ts[i + 1] - t > 4 * EPS_T:
             pts.add(round((t + ts[i + 1]) / 2, 9))
     if ts:
